@@ -875,3 +875,6 @@ add("C13", "star position taken from the cursor after the modifiers were parsed"
 
 add("C13", "revert: heredoc-tag rewind keeps the advanced line", "sqlglot/tokenizer_core.py",
     "                    self._line, self._col = line, col\n", "", "C13.i")
+
+add("C13", "revert: command text token keeps the nested scan's start", "sqlglot/tokenizer_core.py",
+    "                self._start = start + len(raw) - len(raw.lstrip())\n", "", "C13.j")
